@@ -27,7 +27,7 @@ type c19Case struct {
 
 var errTokens = []string{
 	"1", "x", "技", "+", "*", "(", ")", "[", "]", "{", "}", "'", "\"", "`", "\n", "\r\n", "\t", " ",
-	"if ", "while ", "=", ",", "😀", "é", "\xff", ".", ":", "?", "&", "break", "^st", "d", "else ",
+	"if ", "while ", "=", ",", "😀", "é", "\xff", ".", ":", "?", "&", "break", "^st", "d", "else ", "continue", "%",
 }
 
 var errPrefixes = []string{"", "\n", "\n\n  ", strings.Repeat("1+", 35), strings.Repeat("技能+", 15), "x=1;\r\n"}
